@@ -808,6 +808,9 @@ func (c *CR) Apply(l Label) bool {
 		now := w.Clk.Now()
 		// land on the minute boundary d ticks ahead plus the requested seconds (Sa)
 		target := time.Unix(cronBase+int64(ctick(now)+d)*60+int64(l.Sa), 0)
+		if l.Sa%2 == 1 {
+			target = target.Add(650 * time.Millisecond) // a tick that is late by a fraction of a second (the trace logs whole seconds, rounded down)
+		}
 		w.Clk.Step(target.Sub(now))
 	case "DeliverJC":
 		if !w.Inf.JobConfigs.Deliver() {
